@@ -81,10 +81,6 @@ Fixpoint insert_N (x : N) (l : list N) : list N :=
   end.
 Definition sort_N (l : list N) : list N := fold_right insert_N [] l.
 
-Definition same_tuple (a b : event) : bool :=
-  (etype a =? etype b) &&
-  match skey a, skey b with Some x, Some y => x =? y | None, None => true | _, _ => false end.
-
 (* what the AuthEvents map holds after AddEvent of the list elements in order *)
 Fixpoint final_map (l : list event) : list event :=
   match l with
@@ -92,8 +88,7 @@ Fixpoint final_map (l : list event) : list event :=
   | e :: r => if existsb (same_tuple e) r then final_map r else e :: final_map r
   end.
 
-Definition rooms_valid (l : list event) : bool :=
-  match l with [] => true | e :: r => forallb (fun x => eroom x =? eroom e) r end.
+Definition rooms_valid (l : list event) : bool := one_room l.
 
 Fixpoint lookup_allowed (t : list (N * list N * bool)) (u : N) (k : list N) : option bool :=
   match t with
@@ -283,7 +278,7 @@ Definition run_chain (args : list bytes) : bytes :=
 (* VerifyAuthRulesAtState: E, av = allowValidation, sp = state provider script *)
 Definition run_vras (args : list bytes) : bytes :=
   with_scen args (fun s alt =>
-    match verify_auth_rules_at_state pstate (allowed_inst s alt) (pcall_inst s)
+    match verify_auth_rules_at_state pstate (allowed_inst s alt)
             (sp_ids_inst s) (sp_state_inst s)
             (ev_of (s_univ s) (jN (jfield "E" (s_json s)))) (jN (jfield "av" (s_json s)) =? 1)
             (init_ps s) with
@@ -316,7 +311,7 @@ Definition run_bf (args : list bytes) : bytes :=
   with_scen args (fun s alt =>
     match request_backfill pstate (sig_inst s) (allowed_inst s alt) (pcall_inst s)
             (sp_ids_inst s) (sp_state_inst s) (topo_inst s alt) (servers_inst s) (backfill_inst s)
-            (s_fuel s) (s_gfuel s) (jN (jfield "vk" (s_json s)) =? 1)
+            (s_fuel s) (s_gfuel s) (jN (jfield "vk" (s_json s)) =? 1) (jN (jfield "room" (s_json s)))
             (jNs (jfield "from" (s_json s))) (jZ (jfield "limit" (s_json s))) (init_ps s) with
     | (BfResult evs lastErr, ps) =>
         bs "ids=" ++ pNs "," (sort_N (map eid evs)) ++ bs " n=" ++ pN (N.of_nat (length evs))
